@@ -157,6 +157,33 @@ theorem encodeFloat_eq_encode16 (core : St → CoreArgs → Pkt) (st : St) (d ch
   rw [List.map_take, List.map_take, map_float2Res_of_int16 hfl, map_float2Sig_of_int16 hp hfl,
     Nat.min_eq_right (by omega : d ≤ 24), Nat.min_eq_right hd, forall2_length hfl]
 
+/-- Per stream of a multistream call the three formats hand the stream's encoder identical samples, down-mixed
+    analysis signal, sizes, c1, c2, channel count and effective depth (`float_api` is 0 / 0 / 1 by design and is
+    the only component that differs; it only guards against non-finite float input). -/
+theorem msStreamArgs_agree (fapi d C c1 : Nat) (c2 : Option Nat) (hd : d ≤ 16) (pcm : List Int) (fl : List Nat)
+    (hlen : fl.length = pcm.length) (hp : ∀ i, IsInt16 (pcm.getD i 0))
+    (hfl : ∀ i, FloatOfInt16 (pcm.getD i 0) (fl.getD i 0)) :
+    msStreamArgs int24ToRes int24ToSig 0 24 fapi d C c1 c2 (pcm.map (256 * ·)) =
+      msStreamArgs int16ToRes int16ToSig 0 16 fapi d C c1 c2 pcm ∧
+    msStreamArgs float2Res float2Sig 0 24 fapi d C c1 c2 fl =
+      msStreamArgs int16ToRes int16ToSig 0 16 fapi d C c1 c2 pcm := by
+  have g24 : ∀ i, (pcm.map (256 * ·)).getD i 0 = 256 * pcm.getD i 0 := by
+    intro i
+    simp only [List.getD_eq_getElem?_getD, List.getElem?_map]
+    cases pcm[i]? <;> simp
+  have r24 : ∀ i, int24ToRes ((pcm.map (256 * ·)).getD i 0) = int16ToRes (pcm.getD i 0) := fun i => by
+    rw [g24]; exact int24ToRes_shift _
+  have s24 : ∀ i, int24ToSig ((pcm.map (256 * ·)).getD i 0) = int16ToSig (pcm.getD i 0) := fun i => by
+    rw [g24]; exact int24ToSig_shift (hp i)
+  have rf : ∀ i, float2Res (fl.getD i 0) = int16ToRes (pcm.getD i 0) := fun i => float2Res_of_int16 (hfl i)
+  have sf : ∀ i, float2Sig (fl.getD i 0) = int16ToSig (pcm.getD i 0) := fun i => float2Sig_of_int16 (hp i) (hfl i)
+  have m24 : min 24 d = min 16 d := by rw [Nat.min_eq_right (by omega), Nat.min_eq_right hd]
+  constructor
+  · unfold msStreamArgs
+    simp only [List.length_map, r24, s24, m24]
+  · unfold msStreamArgs
+    simp only [hlen, rf, sf, m24]
+
 end entry
 
 /-! ### outputs -/
